@@ -88,6 +88,9 @@ impl StateMachine<'_> {
     fn enter_merge_conflict(&mut self, merge_parents: &MergeParents) -> bool {
         use State::*;
         if let Some(commit) = parse_merge_marker(&self.line, "++<<<<<<<") {
+            // The conflict region is written directly when it ends: the lines of the hunk
+            // which precede it must be rendered before that, not after it.
+            self.painter.paint_buffered_minus_and_plus_lines();
             self.state = MergeConflict(merge_parents.clone(), Ours);
             self.painter.merge_conflict_commit_names[Ours] = Some(commit.to_string());
             true
